@@ -180,7 +180,7 @@ def run(ctx):
     from . import c04
     c04.rewindable_toggle_resets(ctx, rm, "C05.D4-snapshot-when-rewinding-is-re-enabled", directions=((False, True),))
     snap = rm.b("reset_checkpoint_state")
-    ok = any(q.copies_all_items(st, "self._sequence_counters", "self._sequence_counters_copy") for st in A.walk_stmts(snap.node.body))
+    ok = any(q.copies_all_items(st, "self._sequence_counters", "self._sequence_counters_copy", snap.node) for st in A.walk_stmts(snap.node.body))
     ctx.ob("C05.D4-snapshot-when-rewinding-is-re-enabled", cname(snap, None, "the reset snapshots every stream's counter"), ok,
            "" if ok else "the checkpoint no longer snapshots the sequence counters", where=where(snap, snap.node))
 
